@@ -55,6 +55,10 @@ type mwFacts struct {
 	mwErr     types.Object
 	nextCalls []*ast.CallExpr
 	params    map[types.Object]bool
+	// the request function is a method of a small struct built by ScopeMiddleware
+	// (h := &scopeHandler{provider: provider, cfg: cfg, next: next}; return h.serve):
+	recv      types.Object                // its receiver (shared by all requests)
+	fieldInit map[*types.Var]types.Object // field -> the object of ScopeMiddleware it was initialised from
 }
 
 func isFieldNamed(info *types.Info, e ast.Expr, name string) bool {
@@ -185,6 +189,67 @@ func checkScopeMiddleware(w *World, r *Report, m string, p *packages.Package) {
 	}
 	f.lit = innermostLitWith(fi, reachesCS)
 	if f.lit == nil {
+		// method form: a method value of a struct literal built here
+		ast.Inspect(fi.Decl.Body, func(x ast.Node) bool {
+			sel, ok := x.(*ast.SelectorExpr)
+			if !ok || f.lit != nil {
+				return true
+			}
+			s, ok := info.Selections[sel]
+			if !ok || s.Kind() != types.MethodVal {
+				return true
+			}
+			mf, _ := s.Obj().(*types.Func)
+			t := w.Decls[mf]
+			if t == nil || t.Pkg != p || t.Decl.Recv == nil || len(t.Decl.Recv.List[0].Names) != 1 {
+				return true
+			}
+			reaches := false
+			for _, c := range callsIn(t.Decl.Body, false) {
+				if reachesCS(c) {
+					reaches = true
+				}
+			}
+			if !reaches {
+				return true
+			}
+			holder := objOf(info, sel.X)
+			var lit *ast.CompositeLit
+			ast.Inspect(fi.Decl.Body, func(y ast.Node) bool {
+				if as, ok := y.(*ast.AssignStmt); ok && len(as.Lhs) == len(as.Rhs) {
+					for i, l := range as.Lhs {
+						if holder != nil && objOf(info, l) == holder {
+							lit = litOf(as.Rhs[i])
+						}
+					}
+				}
+				return true
+			})
+			if lit == nil {
+				lit = litOf(sel.X)
+			}
+			if lit == nil {
+				return true
+			}
+			f.lit = &ast.FuncLit{Type: t.Decl.Type, Body: t.Decl.Body}
+			f.recv = info.Defs[t.Decl.Recv.List[0].Names[0]]
+			f.fieldInit = map[*types.Var]types.Object{}
+			if tv, ok := info.Types[lit]; ok {
+				if st, ok := derefType(tv.Type).Underlying().(*types.Struct); ok {
+					for name, v := range compositeFields(lit) {
+						for i := 0; i < st.NumFields(); i++ {
+							if st.Field(i).Name() == name {
+								f.fieldInit[st.Field(i)] = objOf(info, v)
+							}
+						}
+					}
+				}
+			}
+			r.Analysed(t)
+			return true
+		})
+	}
+	if f.lit == nil {
 		r.Fail("P1", m+"/ScopeMiddleware#create", fi.Decl.Pos(), "no per-request function calling CreateScope")
 		return
 	}
@@ -261,6 +326,9 @@ func checkScopeMiddleware(w *World, r *Report, m string, p *packages.Package) {
 		rcv, _, _ := methodCall(f.csCall)
 		bad := ""
 		rcvObj := objOf(info, rcv)
+		if f.recv != nil && objOf(info, selBase(rcv)) == f.recv {
+			rcvObj = f.fieldInit[fieldOf(info, rcv)] // h.provider, initialised from ScopeMiddleware's provider
+		}
 		ctxParams := f.params
 		if csHelper != nil {
 			// the helper's parameters stand for what the request function passes
@@ -321,7 +389,7 @@ func checkScopeMiddleware(w *World, r *Report, m string, p *packages.Package) {
 				if o == nil {
 					continue
 				}
-				inside := f.lit.Pos() <= o.Pos() && o.Pos() < f.lit.End()
+				inside := f.lit.Pos() <= o.Pos() && o.Pos() < f.lit.End() && o != f.recv
 				if !inside {
 					bad = "assignment to " + exprStr(t) + ", which is declared outside the per-request function"
 				}
@@ -456,6 +524,14 @@ func checkScopeMiddleware(w *World, r *Report, m string, p *packages.Package) {
 		case *ast.SelectorExpr:
 			if fun.Sel.Name == "ServeHTTP" || fun.Sel.Name == "Next" {
 				return true
+			}
+			// h.next(c): a function-typed field of the request method's receiver that holds the wrapped handler
+			if f.recv != nil && objOf(info, fun.X) == f.recv {
+				if fv := fieldOf(info, fun); fv != nil {
+					if _, isSig := fv.Type().Underlying().(*types.Signature); isSig && f.fieldInit[fv] != nil && f.fieldInit[fv] != f.cfg {
+						return true
+					}
+				}
 			}
 		}
 		return false
@@ -1093,6 +1169,10 @@ func checkHandle(w *World, r *Report, m string, p *packages.Package) {
 			}
 		}
 		walk(recoverBody.List, false)
+		if helper != nil && n == 0 {
+			// the whole per-request part, recovery included, lives in the private function
+			walk(helper.Decl.Body.List, false)
+		}
 		if n == 0 {
 			bad = "Handle never recovers, even when PanicRecovery is enabled"
 		}
@@ -1172,6 +1252,13 @@ func checkHandle(w *World, r *Report, m string, p *packages.Package) {
 				if cal != nil && cal.Pkg() == p.Types && cal.Name() == "FromContext" && len(as.Lhs) == 1 {
 					if t := w.Decls[cal]; t != nil && assertsScopeChecked(info, t) {
 						scopeObj, viaAccessor = objOf(info, as.Lhs[0]), true
+					}
+				}
+				// a private lookup helper of the integration: scope, ok := lookupScope(c)
+				if cal != nil && cal.Pkg() == p.Types && !cal.Exported() && len(as.Lhs) == 2 {
+					if t := w.Decls[cal]; t != nil && assertsScopeChecked(info, t) && returnsTrueOnlyAfterAssertion(info, t) {
+						scopeObj, okObj = objOf(info, as.Lhs[0]), objOf(info, as.Lhs[1])
+						r.Analysed(t)
 					}
 				}
 				if cal != nil && cal.Pkg() != nil && cal.Pkg().Path() == modPath && len(as.Lhs) == 2 {
@@ -1395,4 +1482,63 @@ func assertsScopeChecked(info *types.Info, t *FuncInfo) bool {
 		return true
 	})
 	return locals && asserted
+}
+
+// returnsTrueOnlyAfterAssertion: a (Scope, bool) lookup helper reports true only
+// with the value of a comma-ok assertion that succeeded: every `return x, true`
+// is control dependent on the ok of the assertion that bound x.
+func returnsTrueOnlyAfterAssertion(info *types.Info, t *FuncInfo) bool {
+	sig := t.Obj.Type().(*types.Signature)
+	if sig.Results().Len() != 2 || !isNamedType(sig.Results().At(0).Type(), modPath, "Scope") {
+		return false
+	}
+	okOf := map[types.Object]types.Object{} // asserted value -> its ok
+	ast.Inspect(t.Decl.Body, func(x ast.Node) bool {
+		if s, isAs := x.(*ast.AssignStmt); isAs && len(s.Lhs) == 2 && len(s.Rhs) == 1 {
+			if ta, ok := unparen(s.Rhs[0]).(*ast.TypeAssertExpr); ok && ta.Type != nil {
+				okOf[objOf(info, s.Lhs[0])] = objOf(info, s.Lhs[1])
+			}
+		}
+		return true
+	})
+	fl := theWorld.FlowOf(t)
+	good, n := true, 0
+	for _, ex := range fl.Exits() {
+		if ex.Ret == nil || len(ex.Ret.Results) != 2 {
+			if !ex.Panic {
+				good = false
+			}
+			continue
+		}
+		if exprStr(ex.Ret.Results[1]) == "false" {
+			continue
+		}
+		v := objOf(info, ex.Ret.Results[0])
+		okv := okOf[v]
+		if okv == nil {
+			good = false
+			continue
+		}
+		if exprStr(ex.Ret.Results[1]) == "true" {
+			held := false
+			conds, vals := controllingCondsInfo(info, t.Decl.Body, ex.Ret.Pos())
+			for i, cc := range conds {
+				if objOf(info, cc) == okv && vals[i] {
+					held = true
+				}
+				if u, isU := unparen(cc).(*ast.UnaryExpr); isU && u.Op == token.NOT && objOf(info, u.X) == okv && !vals[i] {
+					held = true
+				}
+			}
+			if !held {
+				good = false
+			}
+			n++
+		} else if objOf(info, ex.Ret.Results[1]) == okv {
+			n++ // return scope, ok
+		} else {
+			good = false
+		}
+	}
+	return good && n > 0
 }
